@@ -233,3 +233,100 @@ func methodCalled(info *types.Info, ce *ast.CallExpr, recvPkg, recvType, name st
 	}
 	return n.Obj().Pkg().Path() == recvPkg && n.Obj().Name() == recvType
 }
+
+// reachableFromAvoiding: is target reachable from start when the edges in cut
+// are deleted?
+func (f *FCFG) reachableFromAvoiding(start, target *cfg.Block, cut []cfgEdge) bool {
+	isCut := func(b *cfg.Block, k int) bool {
+		for _, e := range cut {
+			if e.B == b && e.K == k {
+				return true
+			}
+		}
+		return false
+	}
+	seen := map[*cfg.Block]bool{}
+	var dfs func(x *cfg.Block) bool
+	dfs = func(x *cfg.Block) bool {
+		if x == target {
+			return true
+		}
+		seen[x] = true
+		for i, s := range x.Succs {
+			if isCut(x, i) {
+				continue
+			}
+			if !seen[s] && dfs(s) {
+				return true
+			}
+		}
+		return false
+	}
+	return dfs(start)
+}
+
+// typeIsErrorTest recognises `X.Type == LError` / `!=` on object x; it reports
+// which successor index is the "is an error" edge.
+func typeIsErrorTest(info *types.Info, e ast.Expr, typeFld *types.Var, lerror types.Object) (obj types.Object, errEdge int, ok bool) {
+	be, isBin := ast.Unparen(e).(*ast.BinaryExpr)
+	if !isBin || (be.Op != token.EQL && be.Op != token.NEQ) {
+		return nil, 0, false
+	}
+	side := func(a, b ast.Expr) types.Object {
+		se, isSel := ast.Unparen(a).(*ast.SelectorExpr)
+		if !isSel || FieldOfSelector(info, se) != typeFld {
+			return nil
+		}
+		if identObj(info, b) != lerror {
+			// qualified lisp.LError
+			if s2, ok := ast.Unparen(b).(*ast.SelectorExpr); !ok || info.Uses[s2.Sel] != lerror {
+				return nil
+			}
+		}
+		return identObj(info, se.X)
+	}
+	o := side(be.X, be.Y)
+	if o == nil {
+		o = side(be.Y, be.X)
+	}
+	if o == nil {
+		return nil, 0, false
+	}
+	if be.Op == token.EQL {
+		return o, 0, true
+	}
+	return o, 1, true
+}
+
+// errEdge is an edge on which Obj is known to be an LError value.
+type errEdge struct {
+	Obj types.Object
+	E   cfgEdge
+}
+
+// errorEdges lists edges implying `X.Type == LError` for some variable X.
+func errorEdges(fc *FCFG, typeFld *types.Var, lerror types.Object) []errEdge {
+	var out []errEdge
+	for _, b := range fc.G.Blocks {
+		if !fc.Live(b) {
+			continue
+		}
+		cond := fc.CondOf(b)
+		if cond == nil {
+			continue
+		}
+		for k := 0; k < 2; k++ {
+			for _, a := range impliedAtoms(cond, k == 0) {
+				obj, edge, ok := typeIsErrorTest(fc.Info, a.E, typeFld, lerror)
+				if !ok || obj == nil {
+					continue
+				}
+				// edge==0: atom true means error
+				if (edge == 0) == a.Positive {
+					out = append(out, errEdge{obj, cfgEdge{b, k}})
+				}
+			}
+		}
+	}
+	return out
+}
